@@ -63,6 +63,8 @@ def run_scenarios_from_yaml(
         print(this_simulation["title"])  # Using the title from the YAML file
         print("")
 
+        # work on a copy: the caller's configuration must not be modified
+        this_simulation = dict(this_simulation)
         this_simulation["NMONTHS"] = nmonths
 
         if web_interface:
